@@ -236,8 +236,12 @@ func CoqTx(ver *common.VersionedTransaction) string {
 		id := append(append([]byte{}, cur.Custodian.PublicSpendKey[:]...), cur.Custodian.PublicViewKey[:]...)
 		cust = vh.Some("(" + vh.BytesAsN(id) + ", " + vh.NU(uint64(len(cur.Nodes))) + ")")
 	}
+	extra := ver.Extra // the model reads only the first 64 bytes (node signer and payee)
+	if len(extra) > 64 {
+		extra = extra[:64]
+	}
 	return vh.App("Build_tx", hN(ver.PayloadHash()), hFull(ver.Asset), vh.List(ins, "input"), vh.List(outs, "output"),
-		vh.Bytes(ver.Extra), vh.List(refs, "N"), cust)
+		vh.Bytes(extra), vh.List(refs, "N"), cust)
 }
 
 func CoqSnap(s *common.SnapshotWithTopologicalOrder) string {
@@ -681,11 +685,16 @@ func (s *Store) ExecValidated(op OpSpec) (class string, hops []string) {
 	}
 	hops = append(hops, vh.App("HOp", vh.App("OpGhost", vh.List(ks, "N"), hN(h)), CoqRes("ok")))
 	err = ver.LockInputs(s.S, false)
-	var ins []string
-	for _, in := range ver.Inputs {
-		ins = append(ins, "("+hN(in.Hash)+", "+vh.NU(uint64(in.Index))+")")
+	switch ver.TransactionType() {
+	case common.TransactionTypeMint, common.TransactionTypeDeposit:
+		// deposit / mint locks are families outside the model
+	default:
+		var ins []string
+		for _, in := range ver.Inputs {
+			ins = append(ins, "("+hN(in.Hash)+", "+vh.NU(uint64(in.Index))+")")
+		}
+		hops = append(hops, vh.App("HOp", vh.App("OpLock", vh.List(ins, "(N*N)"), hN(h)), CoqRes(classify(false, err))))
 	}
-	hops = append(hops, vh.App("HOp", vh.App("OpLock", vh.List(ins, "(N*N)"), hN(h)), CoqRes(classify(false, err))))
 	if err != nil {
 		return "rejected", hops
 	}
